@@ -4,7 +4,12 @@
 // this file adds no code and is compiled only with -tags verif.
 package env
 
-//@ spec rec validEnv(e *Env) bool = e != nil && e.mu != nil && e.data != nil && (e.outer == nil || validEnv(e.outer))
+// The lock-taking methods assume their own mutex is not held by the calling thread: callers
+// establish it through lock/order (every lock already held ranks strictly higher).
+// envDepth: length of the outer chain (lock rank: a scope's lock may be held while the lock
+// of a strict ancestor is taken, never the other way round)
+//@ spec rec envDepth(e *Env) int = ite(e.outer == nil, 0, envDepth(e.outer) + 1)
+//@ spec rec validEnv(e *Env) bool = e != nil && e.mu != nil && e.data != nil && envDepth(e) >= 0 && (e.outer == nil || (validEnv(e.outer) && envDepth(e.outer) < envDepth(e)))
 //@ spec validEnvVal(v types.EnvType) bool = is(v, *Env) && validEnv(v.(*Env))
 
 // Lookup through the scope chain as an uninterpreted function of the ghost "scope
@@ -41,42 +46,68 @@ package env
 //@   ensures err != nil || (validEnvVal(r) && fresh(r.(*Env)) && r.(*Env).outer == outer)
 
 //@ func (*Env).Find(e, key) (r)
+//@   requires unlocked(e.mu) @assume
+//@   locks envDepth(e)
 //@   requires validEnv(e)
 //@   panics never
 //@   assigns nothing
 //@   ensures r == nil || validEnvVal(r)
 
 //@ func (*Env).FindNT(e, key) (r)
+//@   requires held(e.mu)
+//@   holds envDepth(e)
 //@   requires validEnv(e)
 //@   panics never
 //@   assigns nothing
 //@   ensures r == nil || validEnvVal(r)
 
 //@ func (*Env).Get(e, key) (v, err)
+//@   requires unlocked(e.mu) @assume
+//@   locks envDepth(e)
 //@   requires validEnv(e)
 //@   panics never
 //@   assigns nothing
 //@   ensures v == lookupV(ghost(envW), e, key.Val) && (err == nil) == lookupOK(ghost(envW), e, key.Val) @assume
 
 //@ func (*Env).GetNT(e, key) (v, err)
+//@   requires held(e.mu)
+//@   holds envDepth(e)
 //@   requires validEnv(e)
 //@   panics never
 //@   assigns nothing
 
 //@ func (*Env).Set(e, key, value) (r)
+//@   requires unlocked(e.mu) @assume
+//@   locks envDepth(e)
 //@   requires validEnv(e)
 //@   panics never
 //@   ensures r == value
 
 //@ func (*Env).SetNT(e, key, value) (r)
+//@   requires heldW(e.mu)
+//@   holds envDepth(e)
 //@   requires validEnv(e)
 //@   panics never
 //@   ensures r == value
 
 //@ func (*Env).Remove(e, key) (err)
+//@   requires unlocked(e.mu) @assume
+//@   locks envDepth(e)
 //@   requires validEnv(e)
 //@   panics never
 
 //@ func (*Env).RemoveNT(e, key) (err)
+//@   requires heldW(e.mu)
+//@   holds envDepth(e)
 //@   requires validEnv(e)
 //@   panics never
+
+//@ func (*Env).Update(e, key, f) (v, err)
+//@   requires unlocked(e.mu) @assume
+//@   requires validEnv(e)
+//@   locks envDepth(e)
+
+//@ func (*Env).Symbols(e, newLine, lastPartial) (r)
+//@   requires unlocked(e.mu) @assume
+//@   requires validEnv(e)
+//@   locks envDepth(e)
